@@ -221,7 +221,23 @@ pub fn run(tier: Tier, _replay: Option<Value>) -> ! {
             bodies.push((format!("{t1}\n{t2}"), vec![format!("feat:{f1}"), format!("feat:{f2}"), "ctx:pair".into()]));
         }
     }
-    let t0s: Vec<String> = bodies.iter().map(|(b, _)| format!("f() {{\n{b}\n}}")).collect();
+    // how the function is DEFINED: redirections attached to the body, a subshell body, the `function` keyword
+    const DEFS: &[(&str, &str, &str)] = &[
+        ("body-redirect", "f() {\n", "\n} >/dev/null 2>&1"),
+        ("body-redirect-fds", "f() {\n", "\n} 3>&1 </dev/null"),
+        ("body-redirect-append", "f() {\n", "\n} >>out.txt"),
+        ("subshell-body", "f() (\n", "\n)"),
+        ("subshell-body-redirect", "f() (\n", "\n) 2>/dev/null"),
+        ("function-keyword", "function f {\n", "\n}"),
+        ("function-keyword-parens-redirect", "function f() {\n", "\n} >&2"),
+    ];
+    let mut t0s: Vec<String> = bodies.iter().map(|(b, _)| format!("f() {{\n{b}\n}}")).collect();
+    for (fname, ftext) in FEATURES {
+        for (dn, open, close) in DEFS {
+            bodies.push((ftext.to_string(), vec![format!("feat:{fname}"), format!("def:{dn}")]));
+            t0s.push(format!("{open}{ftext}{close}"));
+        }
+    }
     let cfg = PoolCfg::new("c14").timeout_ms(30_000);
     let cases: Vec<Vec<u8>> = t0s.iter().map(|t| json!({"t0": t}).to_string().into_bytes()).collect();
     let outs = pool::run(&cfg, &cases);
